@@ -151,6 +151,7 @@ type world struct {
 	pending  []*pmsg
 	rng      *prng
 	keyExp   map[string][]*big.Int // key bytes -> exponent(s)
+	compExp  map[string]*big.Int   // bytes of one key component (a G2 point) -> its exponent
 	commitOf map[string]string     // commitment bytes -> key bytes
 	fresh    int64
 	dev      *deviation
@@ -209,7 +210,58 @@ func (w *world) canon(payload []byte) []byte {
 	return pk.Bytes()
 }
 
+// compExponent: the exponent of one key component (a G2 point) if it is g^e for an exponent e the harness knows (or its
+// negation, or 0): a deviating participant may combine components of several known keys (one flipped sign flag, one identity)
+func (w *world) compExponent(pt *math.G2) *big.Int {
+	if w.compExp == nil {
+		return nil
+	}
+	return w.compExp[string(pt.Bytes())]
+}
+
+func (w *world) componentExps(key []byte) []*big.Int {
+	if !w.keyParses(key) {
+		return nil
+	}
+	var pts []*math.G2
+	if w.pkg == "bls" {
+		p, _ := curve.NewG2FromBytes(key)
+		pts = []*math.G2{p}
+	} else {
+		var xys ps.XYs
+		asn1.Unmarshal(key, &xys)
+		x, _ := curve.NewG2FromBytes(xys.X)
+		pts = append(pts, x)
+		for _, yb := range xys.Ys {
+			y, _ := curve.NewG2FromBytes(yb)
+			pts = append(pts, y)
+		}
+	}
+	if len(pts) != w.comps {
+		return nil
+	}
+	res := make([]*big.Int, len(pts))
+	for i, p := range pts {
+		e := w.compExponent(p)
+		if e == nil {
+			return nil
+		}
+		res[i] = e
+	}
+	return res
+}
+
 func (w *world) registerKey(exp []*big.Int) []byte {
+	if w.compExp == nil {
+		w.compExp = map[string]*big.Int{}
+		w.compExp[string(w.gen().Mul(zr(big.NewInt(0))).Bytes())] = big.NewInt(0)
+	}
+	for _, e := range exp {
+		r := new(big.Int).Mod(e, order)
+		n := new(big.Int).Mod(new(big.Int).Neg(e), order)
+		w.compExp[string(w.gen().Mul(zr(r)).Bytes())] = r
+		w.compExp[string(w.gen().Mul(zr(n)).Bytes())] = n
+	}
 	kb := w.keyBytes(exp)
 	red := make([]*big.Int, len(exp))
 	for i, e := range exp {
@@ -407,10 +459,9 @@ func (w *world) badKey(p *bparty, kind string) []byte {
 	}
 	var xys ps.XYs
 	asn1.Unmarshal(own, &xys)
-	comp := p.id % 3 // which component is spoilt depends on who deviates
-	if kind == "badkey-zero" {
-		comp = 0 // the identity is a valid point: spoil the component the model replay follows (the first one)
-	}
+	// the spoilt component is the first one: the one the model replay follows (some of these encodings still parse - the
+	// identity, a flipped sign flag, a trailing byte - and the key they yield must be judged by the model as well)
+	comp := 0
 	switch comp {
 	case 0:
 		xys.X = mod(xys.X)
@@ -560,11 +611,13 @@ func (w *world) outgoing(p *bparty, data []byte, bcast bool, to int) {
 		case "badkey-flip1", "badkey-flip40", "badkey-flip70", "badkey-fliplast", "badkey-ff", "badkey-zero", "badkey-flagbit", "badkey-long":
 			// a right-sized key that is not the honest one, WITH a matching commitment
 			bad := w.badKey(p, dv.kind)
-			if dv.kind == "badkey-zero" {
-				// the identity is a valid point: the key it yields (own key with that component's exponent 0) is accounted for
-				e := w.mirrorSk(p)
-				e[0] = big.NewInt(0)
-				w.registerKey(e)
+			// an encoding that still parses yields a key assembled from known components (own key, a negated or an identity
+			// component): account for it, so that events, commitments and the final key lists carry its exponents
+			w.registerKey(w.mirrorSk(p))
+			if c := w.canon(bad); c != nil && w.keyExp[string(c)] == nil {
+				if ce := w.componentExps(bad); ce != nil {
+					w.keyExp[string(c)] = ce
+				}
 			}
 			if c := w.canon(bad); c != nil && w.keyExp[string(c)] != nil {
 				dg := sha256.Sum256(bad)
@@ -1047,13 +1100,9 @@ func (w *world) collect(sc *jBScenario) {
 			for _, k := range pks {
 				e, ok := w.keyExp[string(w.canon(k))]
 				if !ok {
-					// the identity (exponent 0 in every component) is a key a deviating participant may legitimately reveal
-					zero := make([]*big.Int, w.comps)
-					for c := range zero {
-						zero[c] = big.NewInt(0)
-					}
-					if bytes.Equal(w.canon(w.keyBytes(zero)), w.canon(k)) {
-						e, ok = zero, true
+					// component by component: a deviator may reveal a key assembled from known components (identity, flipped sign)
+					if ce := w.componentExps(k); ce != nil {
+						e, ok = ce, true
 					}
 				}
 				if !ok {
